@@ -463,7 +463,12 @@ func (c *Checker) narrowInstanceOf(left, right ast.ExpressionNode, assume assump
 	case assumptionTruthy:
 		local.typ = types.NewExact(class)
 	case assumptionFalsy:
-		local.typ = c.differenceType(local.typ, class)
+		// `<<:` compares the exact class: when it is false the value may still be
+		// an instance of a subclass, so the class can only be excluded
+		// when it cannot be subclassed
+		if class.IsSealed() {
+			local.typ = c.differenceType(local.typ, class)
+		}
 	case assumptionNotNil:
 	case assumptionNever, assumptionNil:
 		local.typ = types.Never{}
